@@ -61,8 +61,12 @@ TriWhy(e) ==
              ELSE "ok"
 
 (* the compile-time existence matrix of the harness against the routing model *)
+(* a conversion the model derives must exist in the code; one the code offers beyond the model (an added
+   hand-written impl) is no violation of C01 and is only noted *)
 CapsWhy(e) ==
-  IF \E j \in DOMAIN e.to : (e.to[j] = 1) # PairExists(e.node, e.names[j]) THEN "existence-differs-from-graph-model"
+  IF \E j \in DOMAIN e.to : e.to[j] = 0 /\ PairExists(e.node, e.names[j]) THEN "conversion-missing-at-compile-time"
+  ELSE IF \E j \in DOMAIN e.to : e.to[j] = 1 /\ ~PairExists(e.node, e.names[j])
+       THEN (IF PrintT(<<"NOTE", "extra-conversion", e.node, l>>) THEN "ok" ELSE "ok")
   ELSE "ok"
 
 Why(e) == CASE e.ev = "walk" -> (IF e.mode = "a" THEN AlphaWhy(e) ELSE WalkWhy(e, e.t))
